@@ -352,6 +352,50 @@ func rulesC01(c *Ctx) {
 
 	c.Rule("R-C01-8", "a transport's producer goroutine cannot die silently: its exit always reaches the session's reader (close or error), otherwise pending calls stay blocked (streamable client: R-C09-3)", func() { ruleC01ProducerExit(c) })
 	c.Rule("R-C01-9", "streamable client: a call whose response stream breaks is completed by a synthetic error or by failing the connection, never left pending (shared with R-C09-3)", func() { ruleStreamNeverSilent(c) })
+	c.Import("R-C01-13", "a response is matched to its call whatever spelling of the number the peer used for the id: decoded ids are strings or int64s only", "C19", "R-C19-1", func(k string) bool { return strings.HasPrefix(k, "ID-representation") || strings.HasPrefix(k, "ID literals") })
+
+	c.Rule("R-C01-14", "transport wrappers are transparent for errors: what LoggingTransport's connection returns from Read, Write and Close is the delegate's own error (so jsonrpc2 still recognises ErrRejected, io.EOF and context errors through it)", func() {
+		n := 0
+		for _, name := range []string{"Read", "Write", "Close"} {
+			f := c.Fn(pM, "loggingConn", name)
+			g := f.Graph()
+			delegF := c.Field(pM, "loggingConn", "delegate")
+			var dcall *ast.CallExpr
+			for _, call := range f.AllCalls(f.Body, false) {
+				if sel, ok := ast.Unparen(call.Fun).(*ast.SelectorExpr); ok && sel.Sel.Name == name && f.IsField(sel.X, delegF) {
+					dcall = call
+				}
+			}
+			c.Need(dcall != nil, "loggingConn."+name+": delegate call")
+			n++
+			ok := false
+			switch p := f.ParentOf(dcall).(type) {
+			case *ast.ReturnStmt:
+				ok = true // returned as it is
+			case *ast.AssignStmt:
+				errV := f.ObjOf(p.Lhs[len(p.Lhs)-1])
+				ok = errV != nil
+				for _, r := range f.Returns() {
+					last := r.Results[len(r.Results)-1]
+					if f.ObjOf(last) != errV || g.writtenBetween(errV, g.VertexOf(dcall), g.VertexOf(r)) {
+						// a reassignment is fine only if it wraps the delegate's error with %w
+						okWrap := false
+						for _, w := range f.writesToVar(f.Body, errV, false) {
+							if as, isAs := w.(*ast.AssignStmt); isAs && len(as.Rhs) == 1 && f.WrapsObj(as.Rhs[0], errV) && w != ast.Node(p) {
+								okWrap = true
+							}
+						}
+						if f.ObjOf(last) != errV || !okWrap {
+							ok = false
+						}
+					}
+				}
+			}
+			c.Check(ok, "loggingConn."+name+":returns-delegate-error", f, dcall, "the error returned is the delegate's (unchanged, or wrapped with %%w)")
+		}
+		c.Pin("loggingConn methods", n, 3)
+	})
+
 	c.Import("R-C01-11", "no message of a batch is dropped by the newline-delimited transports: responses in a batch complete their calls", "C03", "R-C03-7", func(k string) bool { return strings.HasPrefix(k, "ioConn.Read") || strings.HasPrefix(k, "readBatch") })
 	c.Import("R-C01-12", "an abandoned call is retired whatever happens to the cancel notice (cancelCall), so it can never keep the connection from becoming idle", "C04", "R-C04-1", func(k string) bool {
 		return strings.HasPrefix(k, "cancelCall:retire") || strings.HasPrefix(k, "call:retire")
